@@ -60,7 +60,20 @@ pub fn replay(ctx: &Ctx, path: &str) -> i32 {
                         if let Some(p) = r.results.iter().find_map(|res| match &res.outcome { proto::Outcome::Panic { msg } => Some(format!("interpreter panicked: {}", msg)), _ => None }) {
                             Some(p)
                         } else {
-                            r.results.get(idx).and_then(|res| compare(&model, res, opts))
+                            if case.get("piecewise").and_then(|b| b.as_bool()).unwrap_or(false) {
+                                let mut out: Vec<String> = Vec::new();
+                                let mut outcome = proto::Outcome::Ok;
+                                for piece in r.results.iter().skip(idx) {
+                                    out.extend(piece.out.iter().cloned());
+                                    if !matches!(piece.outcome, proto::Outcome::Ok) {
+                                        outcome = piece.outcome.clone();
+                                        break;
+                                    }
+                                }
+                                compare(&model, &proto::SnippetResult { out, outcome }, opts)
+                            } else {
+                                r.results.get(idx).and_then(|res| compare(&model, res, opts))
+                            }
                         }
                     }
                 } else if let (Some(out), Some(end)) = (expected.and_then(|e| e.get("out")), expected.and_then(|e| e.get("end"))) {
